@@ -156,6 +156,19 @@ namespace rkcommon {
       buf.write((const byte_t *)rh.data(), sizeof(T) * sz);
       return buf;
     }
+
+    /*! the concrete array types (ArrayView, OwnedArray, FixedArray, ...) are
+     * written like the AbstractArray<T> they are; without this overload the
+     * generic raw data operator above is the better match for them and
+     * streams the bytes of the array object itself */
+    template <template <typename> class ARRAY_T, typename T>
+    inline typename std::enable_if<
+        std::is_base_of<utility::AbstractArray<T>, ARRAY_T<T>>::value,
+        WriteStream &>::type
+    operator<<(WriteStream &buf, const ARRAY_T<T> &rh)
+    {
+      return buf << static_cast<const utility::AbstractArray<T> &>(rh);
+    }
     /*! @} */
 
     /*! @{ serialize operations for strings */
